@@ -112,6 +112,11 @@ class Builder:
             return bool(v)
         raise KeyError(sp)
 
+    def _ka(self, r):
+        """multi-element array constant (builder-only head; checks expand it component-wise): raw ndarray or Constant(ndarray)"""
+        a = np.array([float(v) for v in r[1]])
+        return Constant(a) if r[2] == "Const" else a
+
     def _par(self, r):
         return self.parameter(r[1])
 
